@@ -63,3 +63,114 @@ Theorem C36_contract_zerofill_err :
     lenN d < off -> spec_read_zerofill (Some d) off buf = (buf, inr OutOfBounds).
 Proof. exact spec_zerofill_err. Qed.
 Print Assumptions C36_contract_zerofill_err.
+
+(* ---------------- instructions built on the reads ---------------- *)
+(* copy_from_storage_zero_fill: on success the destination was accessible and owned and memory is
+   the old memory with value[off..off+len] ++ zeros at [dst, dst+len); nothing else changes *)
+Theorem C36_copy_zero_fill :
+  forall (m : mem) (o : owner) (d : bytes) (dst len off : N) (nf : vmerr) (m' : mem),
+    Inv m -> copy_from_storage_zero_fill m o (Some d) dst len off (lenN d) nf = inl m' ->
+    check_range (abs m) dst len = None /\ owns o dst (dst + len) = true /\
+    R m' {| stk_hi := sv_len (stack m); hp := mhp m;
+            data := upd_range (mem_get m) dst (loaded_bytes d off len) |}.
+Proof. exact copy_zero_fill_ok. Qed.
+Print Assumptions C36_copy_zero_fill.
+
+Theorem C36_copy_zero_fill_succeeds :
+  forall (m : mem) (o : owner) (d : bytes) (dst len off : N) (nf : vmerr),
+    Inv m -> check_range (abs m) dst len = None -> owns o dst (dst + len) = true ->
+    (off < lenN d -> off < U32) ->
+    exists m', copy_from_storage_zero_fill m o (Some d) dst len off (lenN d) nf = inl m'.
+Proof. exact copy_zero_fill_succeeds. Qed.
+Print Assumptions C36_copy_zero_fill_succeeds.
+
+(* loaded_bytes byte by byte: value[off+i] where it exists, 0 elsewhere; exactly len bytes *)
+Theorem C36_loaded_bytes :
+  forall (d : bytes) (off n : N),
+    length (loaded_bytes d off n) = N.to_nat n /\
+    forall i, (i < N.to_nat n)%nat -> nth i (loaded_bytes d off n) 0 = nth (N.to_nat off + i) d 0.
+Proof. exact loaded_bytes_spec. Qed.
+Print Assumptions C36_loaded_bytes.
+
+Theorem C36_ccp :
+  forall (s : vm) (contracts : storage) (dst id_addr off len : N) (s' : vm),
+    Inv (v_mem s) -> ccp s contracts dst id_addr off len = inl s' ->
+    exists id code,
+      read_id (v_mem s) id_addr = inl id /\ lookup contracts id = Some code /\
+      v_ssp s' = v_ssp s /\ v_sp s' = v_sp s /\ v_hp s' = v_hp s /\
+      owns (owner_regs s) dst (dst + len) = true /\
+      R (v_mem s') {| stk_hi := sv_len (stack (v_mem s)); hp := mhp (v_mem s);
+                      data := upd_range (mem_get (v_mem s)) dst (loaded_bytes code off len) |}.
+Proof. exact ccp_ok. Qed.
+Print Assumptions C36_ccp.
+
+Theorem C36_bldd :
+  forall (s : vm) (blobs : storage) (dst id_addr off len : N) (s' : vm),
+    Inv (v_mem s) -> bldd s blobs dst id_addr off len = inl s' ->
+    exists id blob,
+      read_id (v_mem s) id_addr = inl id /\ lookup blobs id = Some blob /\
+      v_ssp s' = v_ssp s /\ v_sp s' = v_sp s /\ v_hp s' = v_hp s /\
+      owns (owner_regs s) dst (dst + len) = true /\
+      R (v_mem s') {| stk_hi := sv_len (stack (v_mem s)); hp := mhp (v_mem s);
+                      data := upd_range (mem_get (v_mem s)) dst (loaded_bytes blob off len) |}.
+Proof. exact bldd_ok. Qed.
+Print Assumptions C36_bldd.
+
+Theorem C36_csiz_bsiz :
+  forall (s : vm) (tbl : storage) (id_addr n : N),
+    (csiz s tbl id_addr = inl n ->
+       exists id code, read_id (v_mem s) id_addr = inl id /\ lookup tbl id = Some code /\ n = lenN code) /\
+    (bsiz s tbl id_addr = inl n ->
+       exists id blob, read_id (v_mem s) id_addr = inl id /\ lookup tbl id = Some blob /\ n = lenN blob).
+Proof. exact csiz_bsiz_ok. Qed.
+Print Assumptions C36_csiz_bsiz.
+
+(* LDC modes 0 and 1: $ssp = $sp afterwards = old $ssp + padded length; the stack is extended
+   with zeros as needed; [old $ssp, new $ssp) holds value[off .. off+padded] ++ zeros; then the
+   frame's code size is updated (update_code_size) *)
+Theorem C36_ldc_contract :
+  forall (s : vm) (contracts : storage) (id_addr off c : N) (s' : vm),
+    Inv (v_mem s) -> ldc_contract s contracts id_addr off c = inl s' ->
+    exists id code,
+      v_ssp s = v_sp s /\ read_id (v_mem s) id_addr = inl id /\ lookup contracts id = Some code /\
+      padded_len c <= v_max_size s /\
+      ldc_storage_tail s (Some code) (lenN code) off (padded_len c) ContractNotFound true = inl s'.
+Proof. exact ldc_contract_ok. Qed.
+Print Assumptions C36_ldc_contract.
+
+Theorem C36_ldc_blob :
+  forall (s : vm) (blobs : storage) (id_addr off c : N) (s' : vm),
+    Inv (v_mem s) -> ldc_blob s blobs id_addr off c = inl s' ->
+    exists id blob,
+      v_ssp s = v_sp s /\ read_id (v_mem s) id_addr = inl id /\ lookup blobs id = Some blob /\
+      ldc_storage_tail s (Some blob) (lenN blob) off (padded_len c) BlobNotFound false = inl s'.
+Proof. exact ldc_blob_ok. Qed.
+Print Assumptions C36_ldc_blob.
+
+Theorem C36_ldc_loaded_region :
+  forall (s : vm) (code : bytes) (off length : N) (nf : vmerr) (strict : bool) (s' : vm),
+    Inv (v_mem s) -> ldc_storage_tail s (Some code) (lenN code) off length nf strict = inl s' ->
+    v_ssp s + length <= MEM_SIZE /\ v_ssp s' = v_ssp s + length /\ v_sp s' = v_ssp s + length /\
+    v_hp s' = v_hp s /\
+    owns (only_stack (v_ssp s + length) (v_ssp s) (v_hp s)) (v_ssp s) (v_ssp s + length) = true /\
+    exists m2,
+      R m2 {| stk_hi := N.max (sv_len (stack (v_mem s))) (v_ssp s + length); hp := mhp (v_mem s);
+              data := upd_range (zero_range (mem_get (v_mem s)) (sv_len (stack (v_mem s))) (v_ssp s + length))
+                                (v_ssp s) (loaded_bytes code off length) |} /\
+      update_code_size s m2 length strict = inl (v_mem s').
+Proof. exact ldc_storage_tail_ok. Qed.
+Print Assumptions C36_ldc_loaded_region.
+
+(* the padding is zero when the loaded region reaches the end of the value ... *)
+Theorem C36_padding_zero_when_value_ends :
+  forall (d : bytes) (off c l : N),
+    lenN d <= off + c -> c <= l ->
+    loaded_bytes d off l = loaded_bytes d off c ++ zeros (N.to_nat (l - c)).
+Proof. exact loaded_bytes_strict. Qed.
+Print Assumptions C36_padding_zero_when_value_ends.
+
+(* ... FINDING: but not in general: with $rC not a multiple of 8 and a value that continues, LDC
+   modes 0/1 leave the value's next bytes in the padding, not zeros *)
+Theorem C36_ldc_strict_padding_refuted : ~ ldc_contract_padding_is_zero.
+Proof. exact ldc_strict_padding_refuted. Qed.
+Print Assumptions C36_ldc_strict_padding_refuted.
